@@ -430,6 +430,15 @@ fn c11_dom<D: Dom>(cx: &RunCtx) {
         Ev::Dec => vec!["1/0", "ln(0)", "w(-1)", "79228162514264337593543950335*2"],
         _ => vec!["w(-1)", "lambert_w(-7)"],
     };
+    // the other arguments: 1, 2, 3, … and, in turn, the values at which an early exit is tempting (0 for lcm, 1 for gcd,
+    // the ends of the range for min / max): an aggregate that stops evaluating after such a value would swallow the
+    // failure of a later argument
+    let mut fills: Vec<&str> = vec!["", "0", "1", "(-1)"];
+    match D::EV {
+        Ev::I64 => fills.extend(["9223372036854775807", "(-9223372036854775807-1)"]),
+        Ev::Dec => fills.extend(["79228162514264337593543950335", "(-79228162514264337593543950335)"]),
+        _ => fills.extend(["(1/0)", "(-1/0)", "(0/0)"]),
+    }
     let mut names: Vec<&str> = vec!["min", "max", "avg", "med", "median"];
     if D::EV == Ev::I64 {
         names.push("gcd");
@@ -442,9 +451,10 @@ fn c11_dom<D: Dom>(cx: &RunCtx) {
             continue;
         }
         for n in &names {
+          for fill in &fills {
             for len in 1..=4usize {
                 for pos in 0..len {
-                    let mut a: Vec<String> = (1..=len).map(|i| i.to_string()).collect();
+                    let mut a: Vec<String> = (1..=len).map(|i| if fill.is_empty() { i.to_string() } else { fill.to_string() }).collect();
                     a[pos] = bad.to_string();
                     let s = format!("{}({})", n, a.join(","));
                     let r = crate::sut::run::<D>(&s, &at);
@@ -467,6 +477,7 @@ fn c11_dom<D: Dom>(cx: &RunCtx) {
                     }
                 }
             }
+          }
         }
     }
     cx.add_run(&st, serde_json::json!({"engine": "E-AGG failing argument at every position", "evaluator": D::EV.name(), "stats": st.to_json()}));
